@@ -13,7 +13,7 @@ var profC05 = &hist.Profile{
 	Name: "C05", MinOps: 8, MaxOps: 30, Topics: 2, Subs: 3,
 	W: map[string]int{
 		hist.OpPublish: 22, hist.OpPull: 24, hist.OpAck: 16, hist.OpNack: 4, hist.OpModAck: 4, hist.OpAdvance: 12,
-		hist.OpSeekTime: 2, hist.OpJob: 3, hist.OpSweep: 2, hist.OpCreateSub: 3, hist.OpDeleteSub: 1, hist.OpStreamAck: 2, hist.OpUpdateSub: 2, hist.OpSnapshot: 2, hist.OpSeekSnap: 2,
+		hist.OpSeekTime: 2, hist.OpJob: 3, hist.OpSweep: 2, hist.OpCreateSub: 3, hist.OpDeleteSub: 1, hist.OpStreamAck: 2, hist.OpUpdateSub: 2, hist.OpSnapshot: 2, hist.OpSeekSnap: 2, hist.MacroSnapRoundtrip: 2,
 	},
 	Ordered: 85, Keys: []string{"", "K1", "K1", "K2", "K2", "K3"},
 	DLPercent: 20, Attempts: []int{1, 2}, Retry: 50,
@@ -26,6 +26,9 @@ var profC05 = &hist.Profile{
 		cfg := g.GenCfg("t0")
 		cfg.Ordered = true
 		g.R.Step(hist.Op{K: hist.OpCreateSub, S: "s0", T: "t0", Cfg: &cfg})
+		// a sibling on the same topic: what it acks must not disturb s0's order
+		cfg1 := g.GenCfg("t0")
+		g.R.Step(hist.Op{K: hist.OpCreateSub, S: "s1", T: "t0", Cfg: &cfg1})
 	},
 }
 
